@@ -541,6 +541,12 @@ func (uc *AnalyzeUseCase) calculateSummary(summary *domain.AnalyzeSummary, respo
 
 	// Dead code statistics
 	if response.DeadCode != nil {
+		if response.Complexity == nil {
+			// The project-size normalization of the dead code penalty needs the
+			// file count even when complexity analysis was skipped.
+			summary.TotalFiles = response.DeadCode.Summary.TotalFiles
+			summary.AnalyzedFiles = response.DeadCode.Summary.TotalFiles
+		}
 		summary.DeadCodeCount = response.DeadCode.Summary.TotalFindings
 		summary.CriticalDeadCode = response.DeadCode.Summary.CriticalFindings
 		summary.WarningDeadCode = response.DeadCode.Summary.WarningFindings
